@@ -97,9 +97,44 @@ LEN_INNER = [('s', 'str'), ('seq', 'List', ('s', 'int')), ('seq', 'TupleVar', ('
 ARR_INNER = [('nd', None), ('nd', 'int64'), ('nd', 'float64')]
 
 
+def twin_pairs(a: t.Any, b: t.Any, c: t.Any) -> t.List[t.Tuple[t.Any, t.Any]]:
+    """Pairs of expressions that read alike when flattened ("not a and b", "a or b and c") but are different Boolean functions."""
+    return [
+        (('not', ('and', a, b)), ('and', ('not', a), b)),
+        (('not', ('or', a, b)), ('or', ('not', a), b)),
+        (('and', ('or', a, b), c), ('or', a, ('and', b, c))),
+        (('or', ('and', a, b), c), ('and', a, ('or', b, c))),
+        (('all', (('or', a, b), c)), ('any', (a, ('and', b, c)))),
+    ]
+
+
 @st.composite
 def cases(draw) -> t.Any:
-    fam = draw(st.sampled_from(['num', 'num', 'len', 'shape', 'nested']))
+    fam = draw(st.sampled_from(['num', 'num', 'len', 'shape', 'nested', 'twins']))
+    if fam == 'twins':
+        # two annotated positions of one type (and so of one process, one typing cache, one converter cache) whose condition
+        # expressions differ only in how they nest: each position enforces its own predicate
+        (a, b, c) = (draw(NUM_LEAF), draw(NUM_LEAF), draw(NUM_LEAF))
+        (c1, c2) = draw(st.sampled_from(twin_pairs(a, b, c)))
+        if draw(st.booleans()):
+            (c1, c2) = (c2, c1)
+        inner = draw(st.sampled_from([('s', 'float'), ('s', 'int')]))
+        ths = thresholds(c1) + [0]
+        cands: t.List[t.Any] = [x + dlt for x in ths for dlt in (-1, 0, 1)] + [0, 1, -1, 2, -2]
+        if inner == ('s', 'float'):
+            cands = [float(x) for x in cands] + [float('inf'), float('-inf'), 0.5, -0.5]
+        else:
+            cands = [math.floor(x) for x in cands]
+        (v1, v2) = (draw(st.sampled_from(cands)), draw(st.sampled_from(cands)))
+        if draw(st.integers(0, 3)) == 0:
+            v2 = v1
+        shape = draw(st.sampled_from(['tuple', 'struct', 'union-list']))
+        (A1, A2) = (('ann', inner, (c1,)), ('ann', inner, (c2,)))
+        if shape == 'tuple':
+            return [('tup', 'Tuple', (A1, A2)), [v1, v2], v1]
+        if shape == 'struct':
+            return [('struct', (('p', A1), ('q', A2))), {'p': v1, 'q': v2}, v1]
+        return [('tup', 'Tuple', (('seq', 'List', A1), ('seq', 'List', A2))), [[v1, v2], [v2, v1]], v1]
     nconds = draw(st.integers(1, 3))
     if fam in ('num', 'nested'):
         conds = [draw(cond_exprs(NUM_LEAF)) for _ in range(nconds)]
